@@ -145,12 +145,14 @@ def rule_latest(ctx, rid="R20.2"):
     return r
 
 
-def rule_explicit_class_wins(ctx, rid="R20.3"):
+def rule_explicit_class_wins(ctx, rid="R20.3", only=None):
     prog = ctx.prog
     calls = calls_of(prog)
     vf = prog.func("validators.validator_for")
-    r = ctx.rule(rid, "validator_for is consulted only when no class was given, and its result is what is then used", floor=2)
+    r = ctx.rule(rid, "validator_for is consulted only when no class was given, and its result is what is then used", floor=2 if only is None else 1)
     for f, what in ((prog.func("validators.validate"), "cls"), (prog.func("cli.run"), 'arguments["validator"]')):
+        if only is not None and f.qual not in only:
+            continue
         cfg = cfg_of(f)
         vcalls = [(n, c) for n in cfg.live for (c, tg) in calls_at(calls, f, n) if any(t.kind == "func" and t.func is vf for t in tg)]
         if len(vcalls) != 1:
@@ -258,3 +260,6 @@ def run(ctx):
     rule_registration(ctx)
     tables.rule_id_key(ctx, "R20.5a")
     tables.rule_meta_ids(ctx, "R20.5")
+    # R20.6: the registry's key normalisation (empty fragment dropped, nothing else): URIDict
+    from .c15 import rule_uridict
+    rule_uridict(ctx, "R20.6")
